@@ -1188,5 +1188,215 @@ theorem c01f_indepS (K : Consts ℝ) (A : Arith ℝ) (hK : K.negOne = -1) (hA : 
   have e₂ := c01f_evalS K A hK hA ρ₂ (specEnv ρ₁) h₂ (fun i => by rw [← hd i]; exact denote_specEnvU h₁ i) s hg hm₂
   exact ⟨by rw [e₁, e₂], e₁⟩
 
+/-! ## 6. Truth-valued expressions -/
+
+inductive CausalP | timelike | spacelike | lightlike
+inductive AngleP | parallel | antiparallel | perpendicular
+
+def CausalP.name : CausalP → String
+  | .timelike => "is_timelike" | .spacelike => "is_spacelike" | .lightlike => "is_lightlike"
+def AngleP.name : AngleP → String
+  | .parallel => "is_parallel" | .antiparallel => "is_antiparallel" | .perpendicular => "is_perpendicular"
+
+inductive TF : Type
+  | causal (f : CausalP) (tol : ℝ) (a : F)        -- `a.is_timelike(tol)` … on a 4D value
+  | angle (f : AngleP) (tol : ℝ) (a b : F)        -- `a.is_parallel(b, tol)` … on values of equal dimension
+  | equal (a b : F)                                -- `a == b`
+  | not_equal (a b : F)                            -- `a != b`
+
+noncomputable def evalMTF (K : Consts ℝ) (A : Arith ℝ) (ρ : Nat → Vec ℝ) : TF → Except Err (Res ℝ Prop)
+  | .causal f tol a => unS (evalMF K A ρ a) fun va => call evR K A f.name va [.sc tol]
+  | .angle f tol a b => binS (evalMF K A ρ a) (evalMF K A ρ b) fun va vb => call evR K A f.name va [.v vb, .sc tol]
+  | .equal a b => binS (evalMF K A ρ a) (evalMF K A ρ b) fun va vb => call evR K A "equal" va [.v vb]
+  | .not_equal a b => binS (evalMF K A ρ a) (evalMF K A ρ b) fun va vb => call evR K A "not_equal" va [.v vb]
+
+/-- the documented sign tests of `s = t² − x² − y² − z²` -/
+def causalSpec : CausalP → ℝ → List ℝ → Prop
+  | .timelike, tol, [x, y, z, t] => t ^ 2 - (x ^ 2 + y ^ 2 + z ^ 2) > |tol|
+  | .spacelike, tol, [x, y, z, t] => t ^ 2 - (x ^ 2 + y ^ 2 + z ^ 2) < -|tol|
+  | .lightlike, tol, [x, y, z, t] => |t ^ 2 - (x ^ 2 + y ^ 2 + z ^ 2)| < |tol|
+  | _, _, _ => False
+
+/-- the documented tests on the (spatial) dot product `d` and the (spatial) lengths `m₁`, `m₂` -/
+def angleCore : AngleP → ℝ → ℝ → ℝ → ℝ → Prop
+  | .parallel, tol, d, m₁, m₂ => d > (1 - |tol|) * m₁ * m₂
+  | .antiparallel, tol, d, m₁, m₂ => d < (|tol| - 1) * m₁ * m₂
+  | .perpendicular, tol, d, m₁, m₂ => |d| < |tol| * m₁ * m₂
+
+noncomputable def angleSpec (f : AngleP) (tol : ℝ) : List ℝ → List ℝ → Prop
+  | [x₁, y₁], [x₂, y₂] => angleCore f tol (x₁ * x₂ + y₁ * y₂) (sqrt (x₁ ^ 2 + y₁ ^ 2)) (sqrt (x₂ ^ 2 + y₂ ^ 2))
+  | x₁ :: y₁ :: z₁ :: _, x₂ :: y₂ :: z₂ :: _ =>
+    angleCore f tol (x₁ * x₂ + y₁ * y₂ + z₁ * z₂) (sqrt (x₁ ^ 2 + y₁ ^ 2 + z₁ ^ 2)) (sqrt (x₂ ^ 2 + y₂ ^ 2 + z₂ ^ 2))
+  | _, _ => False
+
+/-- what the returned truth value `p` is specified to be: for the causal and angular predicates EXACTLY the documented
+test on the denotations; for `==` / `!=` only soundness (`c12m_eq_denote_partial`: the comparison is on stored
+coordinates, the converse fails at the coordinate singularities) -/
+noncomputable def TruthSpec (ρS : Nat → List ℝ) : TF → Prop → Prop
+  | .causal f tol a, p => p ↔ causalSpec f tol (evalSF ρS a)
+  | .angle f tol a b, p => p ↔ angleSpec f tol (evalSF ρS a) (evalSF ρS b)
+  | .equal a b, p => p → evalSF ρS a = evalSF ρS b
+  | .not_equal a b, p => evalSF ρS a ≠ evalSF ρS b → p
+
+def GenericTF (ρS : Nat → List ℝ) : TF → Prop
+  | .causal _ _ a => GenericAllF ρS a ∧ (evalSF ρS a).length = 4
+  | .angle _ _ a b => (GenericAllF ρS a ∧ GenericAllF ρS b) ∧ (evalSF ρS a).length = (evalSF ρS b).length
+  | .equal a b => (GenericAllF ρS a ∧ GenericAllF ρS b) ∧ (evalSF ρS a).length = (evalSF ρS b).length
+  | .not_equal a b => (GenericAllF ρS a ∧ GenericAllF ρS b) ∧ (evalSF ρS a).length = (evalSF ρS b).length
+
+theorem causal_case (K : Consts ℝ) (A : Arith ℝ) (f : CausalP) (tol : ℝ) {va : Vec ℝ} {x y z t : ℝ} (ha : Good4 va)
+    (da : denote va = some [x, y, z, t]) (ga : Generic4 [x, y, z, t]) :
+    call evR K A f.name va [.sc tol] = .ok (.truth (causalSpec f tol [x, y, z, t])) := by
+  obtain ⟨-, -, -, -, hB, -⟩ := generic_storage_ok4 ha da ga
+  obtain ⟨h1, -, h3, -, h5, -⟩ := c09m_causal K A va ha.wf hB x y z t da tol
+  cases f
+  · exact h1
+  · exact h3
+  · exact h5
+
+theorem predOK_of_good3 {v : Vec ℝ} {p : List ℝ} (hv : Good3 v) (hd : denote v = some p) (hg : Generic3 p) :
+    C04M.PredOKV v := by
+  obtain ⟨-, -, -, -, -, -, hC3, hT, hS, -⟩ := generic_storage_ok hv hd hg
+  exact ⟨hC3.1, hT, hS⟩
+
+theorem predOK_of_good4 {v : Vec ℝ} {x y z t : ℝ} (hv : Good4 v) (hd : denote v = some [x, y, z, t])
+    (hg : Generic4 [x, y, z, t]) : C04M.PredOKV v := by
+  obtain ⟨⟨-, hC3, hT, hS, -⟩, -⟩ := facts4 hv hd hg
+  exact ⟨hC3.1, hT, hS⟩
+
+theorem angle2_case (K : Consts ℝ) (A : Arith ℝ) (f : AngleP) (tol : ℝ) {va vb : Vec ℝ} {x₁ y₁ x₂ y₂ : ℝ}
+    (ha : Good2 va) (hb : Good2 vb) (da : denote va = some [x₁, y₁]) (db : denote vb = some [x₂, y₂]) :
+    ∃ p : Prop, call evR K A f.name va [.v vb, .sc tol] = .ok (.truth p) ∧ (p ↔ angleSpec f tol [x₁, y₁] [x₂, y₂]) := by
+  obtain ⟨be1, mom1, az1, a0, a1, rfl, hA1⟩ := good2_cases ha
+  obtain ⟨be2, mom2, az2, b0, b1, rfl, hA2⟩ := good2_cases hb
+  have c1 : Stored2 Canon2 (C11M.V2 be1 mom1 az1 a0 a1) := canon2_of_azOK hA1
+  have c2 : Stored2 Canon2 (C11M.V2 be2 mom2 az2 b0 b1) := canon2_of_azOK hA2
+  cases f
+  · exact (C04M.c04m_is_parallel_2D K A _ _ ha.wf hb.wf rfl rfl c1 c2 x₁ y₁ x₂ y₂ da db).2 tol
+  · exact (C04M.c04m_is_antiparallel_2D K A _ _ ha.wf hb.wf rfl rfl c1 c2 x₁ y₁ x₂ y₂ da db).2 tol
+  · exact (C04M.c04m_is_perpendicular_2D K A _ _ ha.wf hb.wf rfl rfl c1 c2 x₁ y₁ x₂ y₂ da db).2 tol
+
+theorem angle3_case (K : Consts ℝ) (A : Arith ℝ) (f : AngleP) (tol : ℝ) {va vb : Vec ℝ} {x₁ y₁ z₁ x₂ y₂ z₂ : ℝ}
+    {r₁ r₂ : List ℝ} (ha : C01M.WFV va) (hb : C01M.WFV vb) (hdim : vb.ty.dim = va.ty.dim) (hca : C04M.PredOKV va)
+    (hcb : C04M.PredOKV vb) (da : denote va = some (x₁ :: y₁ :: z₁ :: r₁)) (db : denote vb = some (x₂ :: y₂ :: z₂ :: r₂)) :
+    ∃ p : Prop, call evR K A f.name va [.v vb, .sc tol] = .ok (.truth p) ∧
+      (p ↔ angleSpec f tol (x₁ :: y₁ :: z₁ :: r₁) (x₂ :: y₂ :: z₂ :: r₂)) := by
+  cases f
+  · exact (C04M.c04m_is_parallel_3D K A _ _ ha hb hdim hca hcb x₁ y₁ z₁ x₂ y₂ z₂ r₁ r₂ da db).2 tol
+  · exact (C04M.c04m_is_antiparallel_3D K A _ _ ha hb hdim hca hcb x₁ y₁ z₁ x₂ y₂ z₂ r₁ r₂ da db).2 tol
+  · exact (C04M.c04m_is_perpendicular_3D K A _ _ ha hb hdim hca hcb x₁ y₁ z₁ x₂ y₂ z₂ r₁ r₂ da db).2 tol
+
+theorem canonV_of_good {v : Vec ℝ} {p : List ℝ} (hv : Good v) (hd : denote v = some p) (hg : Generic p) :
+    C12M.CanonV v := by
+  rcases generic_length hg with hl | hl | hl
+  · obtain ⟨be, mom, az, a, b, rfl, hA⟩ := good2_cases (good_to2 hv hd hl)
+    trivial
+  · have h3 := good_to3 hv hd hl
+    obtain ⟨-, -, -, -, -, -, hC3, hT, -, -⟩ := generic_storage_ok h3 hd (generic_len3 hg hl)
+    obtain ⟨be, mom, az, l, a, b, c, rfl, -, -, -⟩ := good3_cases h3
+    exact ⟨hC3, hT⟩
+  · have h4 := good_to4 hv hd hl
+    have g4 := generic_len4 hg hl
+    obtain ⟨x, y, z, t, rfl, -⟩ := id g4
+    obtain ⟨-, hC3, hT, -, hCt⟩ := facts4 h4 hd g4
+    obtain ⟨be, mom, az, l, tm, a, b, c, d, rfl, -, -, -, -⟩ := good4_cases h4
+    exact ⟨⟨hC3, hCt⟩, hT⟩
+
+/-- **truth-valued expressions**: the model returns a truth value that is the documented test on the specified values
+of the operands (`==` / `!=`: soundness only) -/
+theorem c01f_evalT (K : Consts ℝ) (A : Arith ℝ) (hK : K.negOne = -1) (ρ : Nat → Vec ℝ) (ρS : Nat → List ℝ)
+    (hρ : ∀ i, Good (ρ i)) (hS : ∀ i, denote (ρ i) = some (ρS i)) (b : TF) (hg : GenericTF ρS b) :
+    ∃ p : Prop, evalMTF K A ρ b = .ok (.truth p) ∧ TruthSpec ρS b p := by
+  cases b with
+  | causal f tol a =>
+    obtain ⟨ga, hl⟩ := hg
+    obtain ⟨va, ea, ha, da⟩ := c01f_eval K A hK ρ ρS hρ hS a ga
+    have g4 := generic_len4 (genericAllF_self ga) hl
+    obtain ⟨x, y, z, t, e, -⟩ := id g4
+    rw [e] at da g4
+    refine ⟨causalSpec f tol [x, y, z, t], ?_, ?_⟩
+    · simp only [evalMTF, ea, unS]
+      exact causal_case K A f tol (good_to4 ha da rfl) da g4
+    · simp only [TruthSpec, e]
+  | angle f tol a b =>
+    obtain ⟨⟨ga, gb⟩, hl⟩ := hg
+    obtain ⟨va, ea, ha, da⟩ := c01f_eval K A hK ρ ρS hρ hS a ga
+    obtain ⟨vb, eb, hb, db⟩ := c01f_eval K A hK ρ ρS hρ hS b gb
+    have g₁ := genericAllF_self ga
+    have g₂ := genericAllF_self gb
+    simp only [evalMTF, TruthSpec, ea, eb, binS]
+    have hdim : vb.ty.dim = va.ty.dim := by rw [dim_of_denote hb.1 db, dim_of_denote ha.1 da, hl]
+    rcases generic_length g₁ with hla | hla | hla
+    · have hlb : (evalSF ρS b).length = 2 := by rw [← hl, hla]
+      obtain ⟨x₁, y₁, e₁, -⟩ := generic_len2 g₁ hla
+      obtain ⟨x₂, y₂, e₂, -⟩ := generic_len2 g₂ hlb
+      rw [e₁] at da ⊢
+      rw [e₂] at db ⊢
+      exact angle2_case K A f tol (good_to2 ha da rfl) (good_to2 hb db rfl) da db
+    · have hlb : (evalSF ρS b).length = 3 := by rw [← hl, hla]
+      have g3a := generic_len3 g₁ hla
+      have g3b := generic_len3 g₂ hlb
+      obtain ⟨x₁, y₁, z₁, e₁, -⟩ := id g3a
+      obtain ⟨x₂, y₂, z₂, e₂, -⟩ := id g3b
+      rw [e₁] at da g3a ⊢
+      rw [e₂] at db g3b ⊢
+      exact angle3_case K A f tol ha.1 hb.1 hdim (predOK_of_good3 (good_to3 ha da rfl) da g3a)
+        (predOK_of_good3 (good_to3 hb db rfl) db g3b) da db
+    · have hlb : (evalSF ρS b).length = 4 := by rw [← hl, hla]
+      have g4a := generic_len4 g₁ hla
+      have g4b := generic_len4 g₂ hlb
+      obtain ⟨x₁, y₁, z₁, t₁, e₁, -⟩ := id g4a
+      obtain ⟨x₂, y₂, z₂, t₂, e₂, -⟩ := id g4b
+      rw [e₁] at da g4a ⊢
+      rw [e₂] at db g4b ⊢
+      exact angle3_case K A f tol ha.1 hb.1 hdim (predOK_of_good4 (good_to4 ha da rfl) da g4a)
+        (predOK_of_good4 (good_to4 hb db rfl) db g4b) da db
+  | equal a b =>
+    obtain ⟨⟨ga, gb⟩, hl⟩ := hg
+    obtain ⟨va, ea, ha, da⟩ := c01f_eval K A hK ρ ρS hρ hS a ga
+    obtain ⟨vb, eb, hb, db⟩ := c01f_eval K A hK ρ ρS hρ hS b gb
+    have hdim : va.ty.dim = vb.ty.dim := by rw [dim_of_denote hb.1 db, dim_of_denote ha.1 da, hl]
+    obtain ⟨p, q, -, h2, h3, -⟩ := C12M.c12m_eq_denote_partial K A va vb ha.1 hb.1 hdim
+      (canonV_of_good ha da (genericAllF_self ga)) (canonV_of_good hb db (genericAllF_self gb))
+    refine ⟨q, by simp only [evalMTF, ea, eb, binS]; exact h2, fun hq => ?_⟩
+    have := h3 hq
+    rw [da, db] at this
+    exact Option.some.inj this
+  | not_equal a b =>
+    obtain ⟨⟨ga, gb⟩, hl⟩ := hg
+    obtain ⟨va, ea, ha, da⟩ := c01f_eval K A hK ρ ρS hρ hS a ga
+    obtain ⟨vb, eb, hb, db⟩ := c01f_eval K A hK ρ ρS hρ hS b gb
+    have hdim : va.ty.dim = vb.ty.dim := by rw [dim_of_denote hb.1 db, dim_of_denote ha.1 da, hl]
+    obtain ⟨p, q, h1, -, -, h4⟩ := C12M.c12m_eq_denote_partial K A va vb ha.1 hb.1 hdim
+      (canonV_of_good ha da (genericAllF_self ga)) (canonV_of_good hb db (genericAllF_self gb))
+    refine ⟨p, by simp only [evalMTF, ea, eb, binS]; exact h1, fun hne => h4 ?_⟩
+    rw [da, db]
+    exact fun h => hne (Option.some.inj h)
+
+/-- `!=` is the negation of `==` on every pair of generic expressions of equal dimension -/
+theorem c01f_ne_iff_not_eq (K : Consts ℝ) (A : Arith ℝ) (hK : K.negOne = -1) (ρ : Nat → Vec ℝ) (ρS : Nat → List ℝ)
+    (hρ : ∀ i, Good (ρ i)) (hS : ∀ i, denote (ρ i) = some (ρS i)) (a b : F) (hg : GenericTF ρS (.equal a b)) :
+    ∃ p q : Prop, evalMTF K A ρ (.not_equal a b) = .ok (.truth p) ∧ evalMTF K A ρ (.equal a b) = .ok (.truth q) ∧
+      (p ↔ ¬ q) := by
+  obtain ⟨⟨ga, gb⟩, hl⟩ := hg
+  obtain ⟨va, ea, ha, da⟩ := c01f_eval K A hK ρ ρS hρ hS a ga
+  obtain ⟨vb, eb, hb, db⟩ := c01f_eval K A hK ρ ρS hρ hS b gb
+  have hdim : va.ty.dim = vb.ty.dim := by rw [dim_of_denote hb.1 db, dim_of_denote ha.1 da, hl]
+  obtain ⟨p, q, h1, h2, h3⟩ := C12M.c12m_ne_iff_not_eq K A va vb ha.1 hb.1 hdim
+  exact ⟨p, q, by simp only [evalMTF, ea, eb, binS]; exact h1, by simp only [evalMTF, ea, eb, binS]; exact h2, h3⟩
+
+/-- **C01 for the causal and angular predicates**: the same geometric vectors in any storages give equivalent truth
+values (for `==` / `!=` no such statement is made: they compare stored coordinates) -/
+theorem c01f_indepT (K : Consts ℝ) (A : Arith ℝ) (hK : K.negOne = -1) (ρ₁ ρ₂ : Nat → Vec ℝ)
+    (h₁ : ∀ i, Good (ρ₁ i)) (h₂ : ∀ i, Good (ρ₂ i)) (hd : ∀ i, denote (ρ₁ i) = denote (ρ₂ i)) (b : TF)
+    (hb : (∃ f tol a, b = .causal f tol a) ∨ (∃ f tol a c, b = .angle f tol a c)) (hg : GenericTF (specEnv ρ₁) b) :
+    ∃ p₁ p₂ : Prop, evalMTF K A ρ₁ b = .ok (.truth p₁) ∧ evalMTF K A ρ₂ b = .ok (.truth p₂) ∧ (p₁ ↔ p₂) := by
+  obtain ⟨p₁, e₁, s₁⟩ := c01f_evalT K A hK ρ₁ (specEnv ρ₁) h₁ (denote_specEnvU h₁) b hg
+  obtain ⟨p₂, e₂, s₂⟩ := c01f_evalT K A hK ρ₂ (specEnv ρ₁) h₂ (fun i => by rw [← hd i]; exact denote_specEnvU h₁ i) b hg
+  refine ⟨p₁, p₂, e₁, e₂, ?_⟩
+  rcases hb with ⟨f, tol, a, rfl⟩ | ⟨f, tol, a, c, rfl⟩
+  · exact s₁.trans s₂.symm
+  · exact s₁.trans s₂.symm
+
 end C01F
 end VR
